@@ -147,6 +147,7 @@ func (r *RigS) onRegistration(st *SimStream) {
 	log := r.mq.Logs[st.PCh]
 	from, again := r.st.Domain[key]
 	if !again {
+		r.st.FirstReg[key] = [2]int{r.plan.Incarnation, st.RegStep}
 		// first registration of this task's stream: the replication domain starts here (latest, or the given start position)
 		if st.SeekNil {
 			r.st.Domain[key] = st.Next0
@@ -180,7 +181,20 @@ func (r *RigS) onRegistration(st *SimStream) {
 			r.s.Probe("S_drop_message_generated_at_start")
 		}
 	}
+	if c := r.collByID[st.Coll]; c != nil {
+		for _, pid := range c.Parts {
+			if at, have := r.st.CatDropAt[fmt.Sprintf("p%d", pid)]; have && (at[0] < r.plan.Incarnation || (at[0] == r.plan.Incarnation && at[1] < st.RegStep)) {
+				k := fmt.Sprintf("%d|%d|%d|p%d", tgt, st.Coll, st.Shard, pid)
+				if _, seen := r.st.DropSeen[k]; !seen {
+					r.st.DropSeen[k] = [2]int{r.plan.Incarnation, st.RegStep}
+				}
+			}
+		}
+	}
 	for i, e := range log {
+		if i >= from && e.Kind == "dropp" && e.Coll == st.Coll && e.Seq >= st.SeekSeq && e.Ts <= st.SeekTs {
+			r.st.DropSkipped[fmt.Sprintf("%d|%d|%d|p%d", tgt, st.Coll, st.Shard, e.Part)] = true
+		}
 		if i >= from && e.Kind == "dropc" && e.Coll == st.Coll && e.Seq >= st.SeekSeq && e.Ts <= st.SeekTs {
 			// the drop message itself lies below the seek time: this stream will never report it (KF checkpoint time filter)
 			r.st.DropSkipped[fmt.Sprintf("%d|%d|%d", tgt, st.Coll, st.Shard)] = true
@@ -190,7 +204,7 @@ func (r *RigS) onRegistration(st *SimStream) {
 	var skipped, byTime []int64
 	skippedForwarded := true
 	for i, e := range log {
-		if i < from || (e.Kind != "ins" && e.Kind != "del") || e.Coll != st.Coll || e.Shard != st.Shard {
+		if i < from || (e.Kind != "ins" && e.Kind != "del") || e.Coll != st.Coll || e.Shard != st.Shard || r.partDropped(e) {
 			continue
 		}
 		if e.Seq < st.SeekSeq || e.Ts <= st.SeekTs {
@@ -286,6 +300,33 @@ func (r *RigS) consequenceOfOvertaking(key string, tags []int64) bool {
 		}
 	}
 	return true
+}
+
+// partDropped: the (non-default) partition the message belongs to is dropped at the source at some point of the history:
+// its rows need not arrive (the reader leaves out messages of partitions that are dropped on both sides, and the replayed
+// partition drop may overtake buffered rows) - the at-least-once clause is about rows of live objects.
+func (r *RigS) partDropped(e *REntry) bool {
+	if e.Part == 0 {
+		return false
+	}
+	if r.partDropMemo == nil {
+		r.partDropMemo = map[int64]bool{}
+		for _, lg := range r.mq.Logs {
+			for _, x := range lg {
+				if x.Kind == "dropp" {
+					r.partDropMemo[x.Part] = true
+				}
+			}
+		}
+		for _, h := range r.sc.History {
+			for _, x := range h.Es {
+				if x.Kind == "dropp" {
+					r.partDropMemo[x.Part] = true
+				}
+			}
+		}
+	}
+	return r.partDropMemo[e.Part]
 }
 
 func (r *RigS) droppedAtSource(coll int64) bool {
@@ -430,7 +471,7 @@ func (r *RigS) ackTrace(tgt int, coll int64, shard int) string {
 func (r *RigS) srcTrace(coll int64, shard, from int) string {
 	var sb strings.Builder
 	for i, e := range r.mq.Logs[srcPCh(shard)] {
-		if i >= from && (e.Kind == "ins" || e.Kind == "del") && e.Coll == coll && e.Shard == shard {
+		if i >= from && (e.Kind == "ins" || e.Kind == "del") && e.Coll == coll && e.Shard == shard && !r.partDropped(e) {
 			fmt.Fprintf(&sb, "[id=%d tag=%d]", e.Seq, e.Tag)
 		}
 	}
@@ -587,7 +628,7 @@ func (r *RigS) checkCheckpoints() {
 				if e.Seq > seq {
 					break
 				}
-				if (e.Kind == "ins" || e.Kind == "del") && e.Coll == p.CollectionID && e.Shard == shard {
+				if (e.Kind == "ins" || e.Kind == "del") && e.Coll == p.CollectionID && e.Shard == shard && !r.partDropped(e) {
 					if _, ok := set[e.Tag]; !ok {
 						un = append(un, e.Tag)
 						unForwarded = unForwarded && r.tookForwardPath(p.CollectionID, pch, e.Seq)
@@ -1268,6 +1309,7 @@ func (r *RigS) finalOracles() {
 	if r.plan.Prop == "C04" {
 		r.noteDropRequests()
 		r.checkDrops(tasks, sn, ok && len(s.Parked()) == 0)
+		r.checkPartitionDrops(tasks, sn, ok && len(s.Parked()) == 0)
 		return
 	}
 	if r.plan.Prop != "C05" && r.plan.Prop != "C06" {
@@ -1340,7 +1382,7 @@ func (r *RigS) finalOracles() {
 		var es []ent
 		for i := r.st.Domain[key]; i < len(log); i++ {
 			e := log[i]
-			if (e.Kind == "ins" || e.Kind == "del") && e.Coll == coll && e.Shard == shard {
+			if (e.Kind == "ins" || e.Kind == "del") && e.Coll == coll && e.Shard == shard && !r.partDropped(e) {
 				c, ok := set[e.Tag]
 				es = append(es, ent{e.Tag, c, ok})
 			}
@@ -1443,13 +1485,17 @@ func (r *RigS) noteDropRequests() {
 		ddl := r.st.SDK[tgt].DDL
 		for i := r.st.DDLSeen[tgt]; i < len(ddl); i++ {
 			d := ddl[i]
-			if d.Kind != "dropc" {
+			if d.Kind != "dropc" && d.Kind != "dropp" {
 				continue
 			}
 			for _, c := range r.sc.Colls {
 				if c.Name == d.Coll && c.DB == d.DB {
 					owner := r.taskSelecting(tgt, c)
-					r.st.DropRecPrev[fmt.Sprintf("%d#%d", tgt, i)] = owner != "" && strings.Contains(r.prevRaw, fmt.Sprintf("/%s/drop-collection-%d", owner, c.ID))
+					key := fmt.Sprintf("/%s/drop-collection-%d", owner, c.ID)
+					if d.Kind == "dropp" {
+						key = fmt.Sprintf("/%s/drop-partition-%d-%d", owner, c.ID, c.Parts[d.Part])
+					}
+					r.st.DropRecPrev[fmt.Sprintf("%d#%d", tgt, i)] = owner != "" && strings.Contains(r.prevRaw, key)
 				}
 			}
 		}
@@ -1551,6 +1597,104 @@ func (r *RigS) checkDrops(tasks map[string]*meta.TaskInfo, sn server.VerifSnapsh
 			}
 			if len(reqs) > 0 && ddl[reqs[len(reqs)-1]].Inc == r.plan.Incarnation && r.s.Stats["fault:taskmsg_store_err"] == 0 && strings.Contains(r.rawStore(), fmt.Sprintf("/%s/drop-collection-%d", owner, c.ID)) {
 				s.Violate("C04", "S_drop_record_left"+cls, "downstream %d: the drop of collection %s (%d) was replayed in this incarnation and task %s runs, but its drop-readiness record is still in the store (the drop would be replayed at every restart)", tgt, c.Name, c.ID, owner)
+			}
+		}
+	}
+}
+
+// checkPartitionDrops: the partition-level twin of checkDrops (non-default partitions dropped at the source while their
+// collection stays alive).
+func (r *RigS) checkPartitionDrops(tasks map[string]*meta.TaskInfo, sn server.VerifSnapshot, quiescent bool) {
+	s := r.s
+	before := func(a, b [2]int) bool { return a[0] < b[0] || (a[0] == b[0] && a[1] < b[1]) }
+	for tgt := range r.st.SDK {
+		ddl := r.st.SDK[tgt].DDL
+		for _, c := range r.sc.Colls {
+			for _, pname := range SortedKeys(c.Parts) {
+				pid := c.Parts[pname]
+				var reqs []int
+				created := false
+				for i, d := range ddl {
+					if d.DB != c.DB || d.Coll != c.Name || d.Part != pname {
+						continue
+					}
+					if d.Kind == "createp" && !d.Err {
+						created = true
+					}
+					if d.Kind == "dropp" {
+						reqs = append(reqs, i)
+					}
+				}
+				owner := r.taskSelecting(tgt, c)
+				published := true // the drop message of the partition is published on every shard, inside the task's domain
+				for sh := 0; sh < c.Shard; sh++ {
+					found := false
+					from, streamed := r.st.Domain[domainKey(owner, tgt, c.ID, sh)]
+					// (the partition must have been dropped while the task was replicating the collection - or was down -, not
+					// before the task first read the collection: what a task that starts from the collection's start position does
+					// with a partition that was created and dropped before it existed is not judged here)
+					pub, havePub := r.st.PubAt[fmt.Sprintf("p%d", pid)]
+					reg, haveReg := r.st.FirstReg[domainKey(owner, tgt, c.ID, sh)]
+					for i, e := range r.mq.Logs[srcPCh(sh)] {
+						if e.Kind == "dropp" && e.Coll == c.ID && e.Part == pid && streamed && i >= from && havePub && haveReg && before(reg, pub) {
+							found = true
+						}
+					}
+					published = published && found
+				}
+				if len(reqs) > 0 {
+					s.Probe("S_partition_drop_checked")
+					first := ddl[reqs[0]]
+					for sh := 0; sh < c.Shard; sh++ {
+						seen, have := r.st.DropSeen[fmt.Sprintf("%d|%d|%d|p%d", tgt, c.ID, sh, pid)]
+						if catAt, ok := r.st.CatDropAt[fmt.Sprintf("p%d", pid)]; ok && before(catAt, [2]int{first.Inc, first.Step}) {
+							// the source catalog showed the partition as dropping before the request: a partition that is announced in
+							// that state (at the start, or by the watch) makes every handler generate the drop message of its shard itself
+							s.Probe("S_partition_drop_generated_from_catalog")
+							continue
+						}
+						if !have || !before(seen, [2]int{first.Inc, first.Step}) {
+							cls := ""
+							if r.st.PartialBar[fmt.Sprintf("%d|%d", tgt, pid)] {
+								cls = "_partial_barrier"
+							}
+							s.Violate("C04", "S_pdrop_early"+cls, "downstream %d: drop request for partition %s (%d) of collection %s executed in incarnation %d step %d, but the drop message of shard %d had not been delivered to a stream of that downstream", tgt, pname, pid, c.Name, first.Inc, first.Step, sh)
+							break
+						}
+					}
+					prevOK := -1
+					for _, i := range reqs {
+						d := ddl[i]
+						if d.Err || d.Fault != "" {
+							continue
+						}
+						if prevOK >= 0 && !r.st.DropRecPrev[fmt.Sprintf("%d#%d", tgt, i)] {
+							p0 := ddl[prevOK]
+							s.Violate("C04", "S_pdrop_twice", "downstream %d: partition %s of collection %s was dropped by a request answered with success in incarnation %d step %d and again in incarnation %d step %d, although the drop-readiness record had been removed", tgt, pname, c.Name, p0.Inc, p0.Step, d.Inc, d.Step)
+						}
+						prevOK = i
+					}
+				}
+				if !published || owner == "" || !created || r.droppedAtSource(c.ID) {
+					continue
+				}
+				ti := tasks[owner]
+				if ti == nil || !quiescent || ti.State != meta.TaskStateRunning || sn.Tasks[owner].State != "Running" {
+					continue
+				}
+				cls := r.classOf(tasks, owner)
+				if cls == "" && r.bgPaused[tgt] {
+					cls = "_bystander_of_failed_task"
+				}
+				for sh := 0; sh < c.Shard; sh++ {
+					if r.st.DropSkipped[fmt.Sprintf("%d|%d|%d|p%d", tgt, c.ID, sh, pid)] {
+						cls = "_after_restamped_time_skip"
+					}
+				}
+				s.Probe("S_partition_drop_liveness_checked")
+				if dc := r.st.SDK[tgt].Colls[c.DB+"/"+c.Name]; dc != nil && dc.Parts[pname] != nil {
+					s.Violate("C04", "S_pdrop_missing"+cls, "downstream %d: partition %s of collection %s is dropped at the source (drop message published on every shard), task %s is Running and idle, but the partition still exists downstream (%d drop request(s) so far)", tgt, pname, c.Name, owner, len(reqs))
+				}
 			}
 		}
 	}
